@@ -190,8 +190,8 @@ type Step struct {
 type Result struct {
 	Key       string // real state (observed), the BFS state key
 	MirrorKey string // reference policy applied to the cache calls gqlgen made
-	Steps    []Step
-	Problems []Problem
+	Steps     []Step
+	Problems  []Problem
 }
 
 // worker owns one handschema instance (stateless apart from its log).
